@@ -427,7 +427,7 @@ def materialise(inst, F=None):
     if 'primalstart' in inst:
         out['primalstart'] = {'x': V(inst['primalstart']['x']), 's': V(inst['primalstart']['s'])}
     if 'dualstart' in inst:
-        out['dualstart'] = {'y': V(inst['dualstart']['y']), 'z': V(inst['dualstart']['z'])}
+        out['dualstart'] = {a: V(v) for a, v in inst['dualstart'].items()}       # 'y' may be left out
     if k in ('socp', 'sdp'):
         # the wrappers take their start points in block form; build those objects here, once, so that they are
         # caller-owned arguments like everything else (a wrapper that writes into them must be observable)
